@@ -464,7 +464,7 @@ func c03Case(rt *rapid.T, rec *vh.Recorder, base string) {
 	dir := filepath.Join(base, "hist")
 	_ = os.RemoveAll(dir)
 	defer os.RemoveAll(dir)
-	cfg := verifJHistCfg{minOps: 6, maxOps: vh.N(26, 40), maxNovels: []int{1, 2, 4, 16, 0}, bigChunks: vh.Thorough(), smallMemtable: true}
+	cfg := verifJHistCfg{minOps: 6, maxOps: vh.N(26, 34), maxNovels: []int{1, 2, 4, 16, 0}, bigChunks: vh.Thorough(), smallMemtable: true}
 	defer verifJWithBufSize(rapid.SampledFrom(verifJBufSizes).Draw(rt, "journalWriterBuffSize"))()
 	h := verifJBuildHistory(rt, dir, cfg)
 	x := &c03Ctx{rt: rt, h: h, imgDir: filepath.Join(base, "img"), classes: map[string]int{}, recEnd: map[hash.Hash]int64{}}
@@ -507,7 +507,7 @@ func c03Case(rt *rapid.T, rec *vh.Recorder, base string) {
 		}
 	}
 	rr := verifJMix(x.seed, 7)
-	for i := 0; i < vh.N(40, 400); i++ {
+	for i := 0; i < vh.N(40, 200); i++ {
 		add(first + int64(rr.intn(int(n-first)+1)))
 	}
 	cuts := make([]int64, 0, len(cutSet))
@@ -746,10 +746,10 @@ func TestVerif_C03(t *testing.T) {
 	defer rec.Write(t)
 	base, cleanup := vh.ScratchDir(t, "c03-")
 	defer cleanup()
-	vh.Check(t, "cuts", 10, 5, func(rt *rapid.T) { c03Case(rt, rec, base) })
+	vh.Check(t, "cuts", 10, 4, func(rt *rapid.T) { c03Case(rt, rec, base) })
 	rec2 := vh.NewRecorder("C03", "first_commit", "fault_enumeration", c03FirstRule,
 		"the manifest of the interrupted first commit is taken as observed right after that commit returned: ChunkJournal.Update writes it (flushToBackingManifest) before commitRootHash flushes the journal, and nothing rewrites it in between")
 	defer rec2.Write(t)
-	vh.Check(t, "first_commit", 6, 8, func(rt *rapid.T) { c03FirstCommitCase(rt, rec2, base) })
+	vh.Check(t, "first_commit", 6, 6, func(rt *rapid.T) { c03FirstCommitCase(rt, rec2, base) })
 	_ = strings.Join
 }
